@@ -10,9 +10,9 @@ Definition T (n : str) (e : option str) (cs : list var) (bs : list binding) (fs 
   {| t_name := n; t_extends := e; t_comps := cs; t_binds := bs; t_finals := fs |}.
 Definition G (n : str) (ps : list str) : generic := {| g_name := n; g_modprocs := ps |}.
 Definition Sr (p : list str) (k : skind) (procs abs : list str) (ts : list dtype) (gs : list generic)
-              (vs : list var) (imps : list (cls * (str * ent))) : srec :=
+              (vs : list var) (imps : list (cls * (str * ent))) (host : list str) : srec :=
   {| s_path := p; s_kind := k; s_procs := procs; s_abs := abs; s_types := ts; s_generics := gs;
-     s_vars := vs; s_imports := imps |}.
+     s_vars := vs; s_imports := imps; s_host := host |}.
 (* an observed slot: scope path, slot, entity found by the implementation (None = still a string) *)
 Definition O (p : list str) (d : sdesc) (e : option ent) : list str * sdesc * option ent := (p, d, e).
 
@@ -44,6 +44,8 @@ Definition agrees (l : list res) (obs : list (list str * sdesc * option ent)) : 
    The Spec is only asked about legal units (scopes_legal: no own/import clash, no ambiguous
    import in one scope). *)
 Definition region_abs_over_proc (evs : list event) : bool := negb (procabs_consistent evs).
+(* second region: an own declaration of a submodule named like an entity visible in its host unit *)
+Definition region_sub_shadow (evs : list event) : bool := negb (sub_shadow_free evs).
 
 Definition case := (list event * list (list str * sdesc * option ent))%type.
 (* the implementation agrees with the Spec on every slot on which the model agrees with the Spec
@@ -57,13 +59,14 @@ Definition agrees_x (lm ls : list res) (obs : list (list str * sdesc * option en
                        end) obs.
 (* bit 1: a difference from the Spec that the recorded finding does not explain;
    region value: 1 abs-over-proc, 2 not a legal unit (Spec not asked), 4 not a well-formed event
-   list, 8 the implementation differs from the Spec somewhere *)
+   list, 8 the implementation differs from the Spec somewhere, 16 submodule declaration vs host *)
 Definition judge (c : case) : nat :=
   let evs := fst c in
   let legal := scopes_legal evs in
   verdict (negb (agrees (correlate evs) (snd c))) (legal && negb (agrees_x (correlate evs) (spec evs) (snd c)))
           ((if region_abs_over_proc evs then 1 else 0) + (if legal then 0 else 2)
-           + (if wf_events evs then 0 else 4) + (if legal && negb (agrees (spec evs) (snd c)) then 8 else 0)).
+           + (if wf_events evs then 0 else 4) + (if legal && negb (agrees (spec evs) (snd c)) then 8 else 0)
+           + (if region_sub_shadow evs then 16 else 0)).
 
 (* ancestor_module / parent_submodule: (names of the candidate units in project order, the name
    written in the SUBMODULE statement, the unit the implementation attached) *)
